@@ -10,7 +10,7 @@ CHECKS = {
          "Canonical form is re-established by every accepting path of add_interaction for all integers; no other function writes timelines/event log/counters/adjacency (165 functions scanned); library constructors re-add intervals as (start, end+1).",
          "3.2, 3.4, 4/C03"),
  "C04": ("order-type abstract interpretation of the counter update vs the reader's divisor; abstract interpretation of the readers on a concrete-symbolic index and of avg_number_of_nodes on symbolic graphs; purity (taint) rule",
-         "Counter multiplicity rule (rise by the reader's divisor exactly on newly present instants) for all integers; temporal_snapshots_ids ascending on an index filled out of order; interactions_per_snapshots = counter/divisor, 0 and no key creation for an uninhabited instant, map form; avg_number_of_nodes = mean of |V_t| over the ids on all 64 presence valuations of a 4-node graph (both classes, a backward-pointing directed pair included); observers write nothing.",
+         "Counter multiplicity rule (rise by the reader's divisor exactly on newly present instants) for all integers; temporal_snapshots_ids ascending on an index filled out of order; interactions_per_snapshots = counter/divisor, 0 and no key creation for an uninhabited instant, map form; avg_number_of_nodes = mean of |V_t| over the ids on all presence valuations of a 4-node graph (both classes; both directions of a reciprocal pair and a backward-pointing directed pair varied); observers write nothing.",
          "3.2, 4/C04"),
  "C05": ("order-type abstract interpretation of the event-log writes; abstract interpretation of stream_interactions",
          "Event-log invariant ('+' at run starts, '-' only at run end+1, longer runs closed, one orientation per undirected pair, no foreign keys touched, no KeyError/TypeError) re-established on every path for all integers and all co-located events of other pairs; stream = sorted instants x stored keys. One pinned deviation is listed as a known finding.",
@@ -24,23 +24,23 @@ CHECKS = {
  "C02": ('abstract interpretation of all 53 query entry points on small symbolic graphs with presence as an uninterpreted predicate (all valuations); mode-consistent materialised timelines for get_node_snapshots; purity (taint) rule',
          "Each query's interpreted answer equals the projection of the static graph of present pairs: filtered through the presence test with the right orientation, every interaction once, nbunch through nbunch_iter (incl. one-shot iterators and unknown nodes), wrappers forward their arguments, both removal modes; counting queries also on shapes with a self-loop (a loop adds two to the degree and is one interaction). Bounded graph shapes (4 nodes). Pinned deviations (directed enumeration de-dup, density(t), self-loop halving) are known findings.",
          "3.6 S1, 4/C02"),
- "C06": ("order-type abstract interpretation of time_slice into a recording result graph; endpoint-convention typing; purity",
-         "For every order type of the window against a canonical timeline: exactly one add_interaction(u, v, max(a,F), min(b,T)+1) per interval meeting the window, none otherwise, in order; ValueError iff t_to < t_from; default t_to = t_from; result class; node attributes; source untouched.",
+ "C06": ("order-type abstract interpretation of time_slice (both classes and the functional form, through to the method) into a recording result graph; endpoint-convention typing; purity",
+         "For every order type of the window against a canonical timeline: exactly one add_interaction(u, v, max(a,F), min(b,T)+1) per interval meeting the window, none otherwise, in order; ValueError iff t_to < t_from; default t_to = t_from (a bound that is the literal 0 included); result class; node attributes; source untouched.",
          "3.2, 4/C06"),
- "C09": ('abstract interpretation of generate_snapshots (canonical timelines), of parse_snapshots on a structural model of text lines, and of the open_file wrapper; writer/reader table and parameter-flow rules',
-         "Structural necessary conditions of the round trip: one row per (interaction, instant), unswapped, requested delimiter; every row shape of the grammar x delimiter x nodetype/timestamptype/keys is skipped or handed to add_interaction as (u, v, t, vanishing e) with the right columns, TypeError on failing conversions; string paths opened by extension and closed, caller's file objects untouched; modes / path index / encoding / delimiter flow. Equality of graphs after a round trip is NOT decided.",
+ "C09": ('abstract interpretation of generate_snapshots (canonical timelines), of write_snapshots on k opaque rows into a recording file (k sized from the constants in the writer), of read_snapshots on a recorded binary file, of parse_snapshots on a structural model of text lines, of the open_file wrapper and of make_str (constant propagation); writer/reader table and parameter-flow rules',
+         "Structural necessary conditions of the round trip: one row per (interaction, instant), unswapped, requested delimiter; every row shape of the grammar x delimiter x nodetype/timestamptype/keys is skipped or handed to add_interaction as (u, v, t, vanishing e) with the right columns, TypeError on failing conversions; string paths opened by extension and closed, caller's file objects untouched; the file holds the generated rows in order, one per line, written through ONE encoder for the requested encoding (row counts 0..3 and around every size constant of the writer, so a block writer is judged across its block boundary); the reader decodes the stream as a whole in the requested encoding before splitting it into lines; make_str(x) == str(x); modes / path index / delimiter flow. Equality of graphs after a round trip is NOT decided.",
          "3.1, 3.6, 4/C09"),
- "C10": ('abstract interpretation of generate_interactions, of parse_interactions on text-line and two-row event-log models over order types, and of the open_file wrapper; table/flow rules',
-         "One row per stream event; a log '+ p' / '- s' is replayed as add(p) and one add(t in [p,p+1], e=s) exactly when s > p (all orderings, both classes); every row shape handled as the format demands; tables agree. Logs with several interleaved pairs and equality of graphs/streams after a round trip are NOT decided beyond these clauses.",
+ "C10": ('abstract interpretation of generate_interactions, of write_interactions / read_interactions on recording files (as C09), of parse_interactions on text-line, two-row and whole event-log models over order types, and of the open_file wrapper; table/flow rules',
+         "One row per stream event; a log '+ p' / '- s' is replayed as add(p) and one add(t in [p,p+1], e=s) exactly when s > p (all orderings, both classes); whole logs with reciprocal / interleaved / nested runs (undirected logs also with the '-' rows naming the pair in the other orientation) read back to exactly the presence they describe; every row shape handled as the format demands; file assembly and decoding as C09; tables agree. Equality of graphs/streams after a round trip is NOT decided beyond these clauses.",
          "3.2, 3.6, 4/C10"),
  "C11": ("abstract interpretation of node_link_data (canonical timelines) and of node_link_graph on symbolic data",
-         "Writer: directed flag, graph attrs, one entry per node with id, exactly one link per instant of presence, unswapped. Reader: class from the data (argument only as fallback), every node under its id with remaining attrs, one add_interaction per link, graph attrs. JSON equality itself is not decided.",
+         "Writer (called with a caller-chosen id key): directed flag, graph attrs, one entry per node with its id under the requested key, exactly one link per instant of presence, unswapped; make_str(x) == str(x) on attribute keys. Reader: class from the data (argument only as fallback), every node under its id with remaining attrs, one add_interaction per link, graph attrs. JSON equality itself is not decided.",
          "3.1, 3.6, 4/C11"),
  "C16": ('abstract interpretation of the conversions into a recording result graph: per pair over order types, reciprocal branch with interval-set values, and at graph level on 4-node symbolic graphs with both directions of a pair varied; endpoint-convention typing; swallowed-rejection rule; purity',
-         "Every stored interval [a,b] is re-added as (a, b+1) with instants (never the stored list objects); all nodes added; graph/node attributes deep-copied; no write to the source; reciprocal=True re-adds exactly the non-empty intersections in increasing order (all order types of 4-6 interval ends); at graph level the presence relation of the result (recorded calls replayed by the specification of add_interaction) equals union / intersection / both directions pair by pair and instant by instant. to_directed's single direction and the directed enumeration de-dup are known findings.",
+         "Every stored interval [a,b] is re-added as (a, b+1) with instants (never the stored list objects); all nodes added; graph/node attributes deep-copied; no write to the source; reciprocal=True re-adds exactly the non-empty intersections in increasing order (all order types of 4-6 interval ends); at graph level the presence relation of the result (recorded calls replayed by the specification of add_interaction) equals union / intersection / both directions pair by pair and instant by instant (a self-loop is its own reverse); node ids are never ordered (only hashed / compared for equality). to_directed's single direction and the directed enumeration de-dup are known findings.",
          "3.1, 3.3 P6, 4/C16"),
  "C18": ('abstract interpretation of both parsers and read_ids on a structural model of text lines; compact_timeslot on symbolic timestamps over all orderings',
-         'Every row shape of the grammar (valid, 4-column, extra column, short, trailing comment, comment only, empty, bare newline, blanks, padded, no newline) x delimiter None/explicit x nodetype/timestamptype/keys: skipped silently, or exactly one add_interaction with converted/ranked fields of the right columns, or TypeError for a failing conversion; read_ids ranks exactly the time fields of accepted rows; compact_timeslot returns ranks (negative timestamps included when it compares with literals).',
+         'Every row shape of the grammar (valid, 4-column, extra column, short, trailing comment, comment only, empty, bare newline, blanks, padded, no newline) x delimiter None/explicit x nodetype/timestamptype/keys: skipped silently, or exactly one add_interaction with converted/ranked fields of the right columns, or TypeError for a failing conversion; read_ids ranks exactly the time fields of accepted rows; compact_timeslot returns ranks (negative timestamps included when it compares with literals; concrete integer sets as a second opinion when the symbolic run abstains).',
          "3.6, 4/C18"),
  "C19": ("override/blocking closure over the parsed source of the installed networkx (MRO-resolved self-call graph + taint effects); decorator body analysis; freeze coverage",
          "Every public callable of the MRO that can change adjacency/node structure through self is a timestamped owner or lands on an always-raising override; required-blocked names resolve to always-raising definitions; base-class calls go to the direct base and reset both indexes; freeze shadows every mutator not blocked for all graphs. Pinned deviations (freeze vs add_interaction; update(nodes=)) are known findings.",
@@ -51,8 +51,8 @@ CHECKS = {
  "C13": ("abstract interpretation of time_respecting_paths and all_time_respecting_paths on symbolic temporal graphs, compared with the checker's brute-force enumeration of admissible hop sequences",
          "On bounded shapes (3 nodes, 2-3 stored pairs and 3-cycles through the source, ids t+1,t+2,t+4, every presence valuation, every source, v omitted/given, whole range / inner window; both classes) the set returned with sample=1 equals the set of all hop sequences satisfying the conditions of C12; nothing is returned when u has no interaction at an explicit start; all_time_respecting_paths maps (u,w) for the nodes present at min_t to exactly the per-source result. The sample<1 subset clause and larger graphs are NOT decided.",
          "3.1, 4/C13"),
- "C14": ("abstract interpretation of annotate_paths on generic paths over all orderings (ties) and input permutations",
-         "The five answers equal the argmin sets for every ordering of hop counts, durations and arrival times of three generic paths, in every input order (2197 order types x 6); zero-valued minima covered when the code tests for truth.",
+ "C14": ("abstract interpretation of annotate_paths on generic paths over all orderings (ties) and input permutations; of path_length / path_duration on concrete hop sequences",
+         "The five answers equal the argmin sets for every ordering of hop counts, durations and arrival times of three generic paths, in every input order (2197 order types x 6); zero-valued minima covered when the code tests for truth; path_length = hop count and path_duration = last - first time on one- to three-hop sequences (list and tuple form, a self-loop hop, a return to the source).",
          "3.6 S2, 4/C14"),
  "C15": ('abstract interpretation of temporal_dag on symbolic temporal graphs (recording DAG, structured occurrence names) judged clause by clause; prefix (defaults, guard, window; bisect/slices as rank arithmetic) over all orderings',
          'Edge soundness and orientation, s<t except from source occurrences, no edge from an occurrence to itself, sources exact, targets occurrences of v and DAG nodes, waiting only through active instants - on bounded shapes incl. a label that is a prefix of another, a self-loop on the root and non-chronological insertion order of snapshot ids; ValueError exactly for invalid windows; empty DAG without snapshots; window ids exact and ascending for all orderings. Acyclicity follows from these clauses; larger graphs are not decided.',
@@ -61,7 +61,7 @@ CHECKS = {
          'Global / per-node (either, source, target) / per-pair distributions equal the gap histograms on streams with ties, equal gaps and an emptied log bucket; coverage, node_contribution, uniformity, node_pair_uniformity, density, pair_density, node_presence equal their definitions on 49 (thorough: 1024) presence valuations of a 4-node graph with seven snapshot ids (runs, holes, nested and staggered runs; |T| differs from the span); edge_contribution measures closed intervals as end-start+1; observers pure. node_density / snapshot_density not covered; bounded shapes.',
          "4/C17"),
  "C20": ("abstract interpretation of delta_conformity end to end and of sliding_delta_conformity (with delta_conformity recorded) on symbolic temporal graphs; constant propagation of the float arithmetic on concrete hop distances",
-         "On bounded shapes (3 nodes, 2-3 stored pairs, ids 1,2,4, every presence valuation, three windows, uniform / two-valued / all label partitions, alphas 1.0 and 2.5): None iff the window is empty, scores for exactly the nodes present at start per alpha and profile, every score in [-1,1], unchanged under renaming of label values, 1 / 0 under a single shared label; the sliding driver evaluates exactly the windows with t+delta before the last id, forwards its arguments, skips None and stamps t+delta. Renaming of node ids, hierarchies, profile_size>1 and larger graphs are NOT decided.",
+         "On bounded shapes (3 nodes, 2-3 stored pairs, ids 1,2,4, every presence valuation, three windows, uniform / two-valued / all label partitions, alphas 1.0 and 2.5): None iff the window is empty, scores for exactly the nodes present at start per alpha and profile, every score in [-1,1] (also for damping factors that share a '%.2f' key), unchanged under renaming of label values, 1 / 0 under a single shared label; the sliding driver evaluates exactly the windows with t+delta before the last id, forwards its arguments, skips None and stamps t+delta. Renaming of node ids, hierarchies, profile_size>1 and larger graphs are NOT decided.",
          "4/C20"),
 }
 NA = [
